@@ -181,6 +181,7 @@ pub fn required_probes(prop: &str) -> Vec<&'static str> {
         "C04" => vec![
             "op.run",
             "op.complete",
+            "op.print",
             "op.markdown",
             "op.html",
             "op.manpage",
@@ -258,6 +259,7 @@ pub fn required_probes(prop: &str) -> Vec<&'static str> {
             "rule.R5.evaluated",
             "rule.R7.evaluated",
             "rule.R8.evaluated",
+            "rule.R9.evaluated",
             "rule.R3adj.evaluated",
             "probe.R3adj_first_member_from_variable",
             "rule.R10.evaluated",
